@@ -47,6 +47,9 @@ struct Hist {
     time: u64,
     /// value of the ledger counter when this value was written
     c: u64,
+    /// the library saw no change worth an event in this update (event detection left to it): the time stamp of this
+    /// update is not reported to anybody
+    unreported_time: bool,
 }
 
 #[derive(Default)]
@@ -61,6 +64,8 @@ struct Ledger {
     executed: Vec<(usize, u16, f64)>,
     /// values of `counter` at which a database transaction ended: the only states a READ can observe
     txn_ends: BTreeSet<u64>,
+    /// updates left to the library's own event detection
+    detect_updates: u64,
     /// time stamps are unique but not monotonic (every third one lies about 40 s ahead of its neighbours)
     jitter_time: bool,
 }
@@ -90,8 +95,14 @@ fn write_point(
         0x01 | (r.u8() & 0x1E)
     };
     let tm = Time::synchronized(time);
+    // one update in three leaves it to the library to decide whether the change is an event (values come back to earlier
+    // ones for the binary types, so "same as the value last reported" and "same as the previous value" differ)
+    let detect = !static_only && forced.is_none() && r.chance(1, 3);
     let opt = if static_only {
         UpdateOptions::no_event()
+    } else if detect {
+        led.detect_updates += 1;
+        UpdateOptions::new(true, EventMode::Detect)
     } else {
         UpdateOptions::new(true, EventMode::Force)
     };
@@ -101,6 +112,7 @@ fn write_point(
         flags: raw_flags,
         time,
         c,
+        unreported_time: false,
     };
     let info = match t {
         0 => {
@@ -168,6 +180,9 @@ fn write_point(
             db.update2(i, &OctetString::new(&b).unwrap(), opt)
         }
     };
+    if matches!(info, UpdateInfo::NoEvent) && detect {
+        h.unreported_time = true;
+    }
     let e = led.hist.entry((t, i)).or_default();
     e.push(h);
     let pos = e.len() - 1;
@@ -373,22 +388,42 @@ async fn proxy(
     let mut n = 0u64;
     let port = listener.local_addr().map(|a| a.port()).unwrap_or(0);
     let mut listener = Some(listener);
+    let mut placeholder: Option<tokio::net::TcpSocket> = None;
     loop {
         if stop.load(Ordering::SeqCst) {
             break;
         }
-        // "server down": nothing listens on the port, connection attempts are refused
+        // "server down": nothing listens on the port, connection attempts are refused. The port itself stays ours: a
+        // bound socket that does not listen keeps it out of the kernel's automatic port selection, so that no other
+        // process (another instance of this check, say) can start listening on it while the master keeps dialling it
         let down_until = ctl.lock().unwrap().listener_down_until;
         if down_until.map(|t| Instant::now() < t).unwrap_or(false) {
             if listener.take().is_some() {
                 ctl.lock().unwrap().refusal_periods += 1;
             }
+            if placeholder.is_none() {
+                if let Ok(sock) = tokio::net::TcpSocket::new_v4() {
+                    let _ = sock.set_reuseaddr(true);
+                    if sock.bind(([127, 0, 0, 1], port).into()).is_ok() {
+                        placeholder = Some(sock);
+                    }
+                }
+            }
             tokio::time::sleep(Duration::from_millis(10)).await;
             continue;
         }
         if listener.is_none() {
-            match TcpListener::bind(("127.0.0.1", port)).await {
-                Ok(l) => listener = Some(l),
+            // listen again (possible while the placeholder is still bound: it never listened)
+            let fresh = tokio::net::TcpSocket::new_v4().and_then(|sock| {
+                sock.set_reuseaddr(true)?;
+                sock.bind(([127, 0, 0, 1], port).into())?;
+                sock.listen(16)
+            });
+            match fresh {
+                Ok(l) => {
+                    listener = Some(l);
+                    placeholder = None;
+                }
                 Err(_) => {
                     tokio::time::sleep(Duration::from_millis(10)).await;
                     continue;
@@ -986,7 +1021,13 @@ async fn scenario(a: &ShardArgs, idx: u64) {
                     break;
                 }
                 Some(rc) => {
-                    if !matches_hist(rc, cur, k.0) {
+                    // value and flags must be the current ones; the time is the one of the last update that was reported
+                    let same_but_for_time = cur.unreported_time && {
+                        let mut probe = (*rc).clone();
+                        probe.time = None;
+                        matches_hist(&probe, cur, k.0)
+                    };
+                    if !matches_hist(rc, cur, k.0) && !same_but_for_time {
                         why_not = format!("point {k:?}: last reported {:?} flags {:#04x} time {:?}, current {cur:?}", rc.val, rc.flags, rc.time);
                         break;
                     }
@@ -1182,6 +1223,7 @@ async fn scenario(a: &ShardArgs, idx: u64) {
             );
             out::count("events_overflow_discarded", g.discarded.len() as u64);
             out::count("commands_executed", g.commands);
+            out::count("updates_with_event_detection", g.detect_updates);
             out::count("convergence_ms_total", conv_ms as u64);
         }
         let c = ctl.lock().unwrap();
